@@ -311,6 +311,38 @@ pub fn replay_layer(case: &Value, rep: &mut Report) {
         }
     }
 
+    // ---- forward on the same data scaled by a power of two (exact in single precision): every layer without a bias
+    //      is positively homogeneous (Linear / ReLU / max), so the outputs scale with the inputs -- for inputs far below
+    //      the machine epsilon and far above the usual magnitudes alike ("all finite inputs") ----
+    if forward_ok && !(kind == "dense" && bool_of(c, "bias")) {
+        let mut want: Vec<f32> = Vec::new();
+        flat_json(&case["post"], &mut want);
+        for e in [-30i32, 40] {
+            let sc = (2.0f64).powi(e) as f32;
+            let scaled: Vec<f32> = flat(&x).iter().map(|v| v * sc).collect();
+            let xs = if kind == "dense" { Tensor::single(scaled) } else { crate::tensors::triple_rowmajor(&data_dims(&x.data), &scaled) };
+            rep.checks += 1;
+            match guarded(|| layer.forward(&xs)) {
+                Err(msg) => rep.mismatch("C02", &format!("forward_panic_scaled_input:{}", kind), &id, json!({"panic": msg, "scale_exponent": e}), case),
+                Ok((_, post, _)) => {
+                    let got = flat(&post);
+                    let bad = if got.len() != want.len() { Some(usize::MAX) } else { got.iter().zip(want.iter()).position(|(g, w)| *g != *w * sc) };
+                    if let Some(i) = bad {
+                        rep.mismatch(
+                            "C02",
+                            &format!("forward_value_scaled_input:{}", kind),
+                            &id,
+                            json!({"scale": format!("2^{}", e), "element": if i == usize::MAX { json!("length") } else { json!(i) },
+                                   "observed": got.get(i).map(|v| format!("{:e}", v)), "expected": want.get(i).map(|w| format!("{:e}", *w * sc))}),
+                            case,
+                        );
+                        break;
+                    }
+                }
+            }
+        }
+    }
+
     // ---- backward (C01): gradients and their shapes (C08) ----
     let Some((pre, _post, max)) = observed else { return };
     let mut spatial_ok = false;
